@@ -18,12 +18,15 @@ def plans(tier):
 def real_plans(tier):
     s = vlib.seed()
     q = tier == "quick"
-    return [dict(real=True, gens="star,hole,spiky,arbitrary", variants="base,again,rev", n=300 if q else 10000, seed=s + 50, where="interior,origin,nl")]
+    return [dict(real=True, gens="star,hole,spiky,arbitrary", variants="base,again,rev,ringrev", n=300 if q else 10000, seed=s + 50, where="interior,origin,nl"),
+            # small polygons far from the CRS origin at deep levels: orientation arithmetic on absolute coordinates is at its worst here
+            dict(real=True, sets="WebMercatorQuad,WorldMercatorWGS84Quad,UPSAntarcticWGS84Quad", gens="star,hole", variants="base,ringrev", n=400 if q else 10000,
+                 seed=s + 51, where="far,origin,interior", extra=["-minz", "17"])]
 
 
 def run(tier):
     return snapcheck.run_snap_property(
-        PROP, tier, "SnapTrace_C07.cfg", plans(tier), real_plans=real_plans(tier), real_cfg="RealTrace_C07.cfg", second_process=True,
+        PROP, tier, "SnapTrace_C07.cfg", plans(tier), real_plans=real_plans(tier), real_cfg="RealTrace_C07.cfg", second_process=True, require_repro=False,
         rule="every input is snapped twice in one process and once more in a separate process (Go randomises map iteration per range "
              "and per process), with the reverse flag toggled, and (valid polygons) with the shell / a random subset of rings reversed; "
              "TLC decides which records of a group have equal inputs and demands identical (resp. ring-wise reversed) results")
